@@ -159,6 +159,17 @@ ShortNameOpnds == {Rel1("a"), Path("abs", <<St("a")>>), Path("abs", <<St("a"), S
 ShortNameChains(u_) == UNION {Chain2(x, y, OpC) : x \in ShortNameOpnds, y \in {Rel1("a"), Path("abs", <<St("b")>>), OpB}}
                        \cup UNION {Chain2(OpA, x, y) : x \in ShortNameOpnds, y \in {Rel1("b"), Path("abs", <<St("a")>>)}}
                        \cup {NegA(x) : x \in ShortNameOpnds} \cup {BinA(o, NegA(x), y) : o \in AllOps, x \in ShortNameOpnds, y \in {Rel1("a"), OpB}}
+\* argument tuples that coincide when written one after the other with a separator: (x s, y) and (x, s y).  Whatever
+\* the library keeps between calls (tables, memos) may not confuse them; each is judged on its own
+SepChars == {"|", ",", ":", "/", ";", " ", "=", "-", ".", "+"}
+SepBases == {<<"ab", "x">>, <<"a", "b">>, <<"12", "2">>}
+SepCollide(u_) ==
+  UNION {{F2A(f, L(b[1] \o sp), L(b[2])), F2A(f, L(b[1]), L(sp \o b[2]))} : f \in F2 \ {"re-match"}, sp \in SepChars, b \in SepBases}
+  \cup UNION {{F3A("translate", sj, L(b[1] \o sp), L(b[2])), F3A("translate", sj, L(b[1]), L(sp \o b[2])),
+              F3A("translate", L(b[1] \o sp), L(b[2]), L("z")), F3A("translate", L(b[1]), L(sp \o b[2]), L("z"))}
+             : sj \in {L("ab|a,b:x/1;2 =-.+"), Rel1("vtxt")}, sp \in SepChars, b \in SepBases}
+  \cup UNION {{F2A("concat", F2A("concat", L(b[1] \o sp), L(b[2])), L("!")), F2A("concat", F2A("concat", L(b[1]), L(sp \o b[2])), L("!"))}
+             : sp \in SepChars, b \in SepBases}
 Family(i) ==
   CASE i = 1 -> D1Bin(ArithOps)
     [] i = 2 -> D1Bin({"=", "!="})
@@ -181,7 +192,8 @@ Family(i) ==
     [] i = 19 -> UnionChains(0)
     [] i = 20 -> PathValues(0)
     [] i = 21 -> ShortNameChains(0)
-NFamilies == 21
+    [] i = 22 -> SepCollide(0)
+NFamilies == 22
 \* families 9 and 10 are big and come in NChunks chunks; the others are chunk 0 only
 FamilyC(i, c, C) ==
   IF i = 9 THEN D2Bin(ArithOps, c, C) ELSE IF i = 10 THEN D2Bin(CmpOps \cup BoolOps, c, C)
